@@ -154,6 +154,9 @@ class DiffEqSolver:
         rFactor = np.vectorize(rFactor)
         ddThetaFactor = np.vectorize(ddThetaFactor)
         rhoFactor = np.vectorize(rhoFactor)
+        # The factor in front of the right hand side is also required when
+        # the right hand side is provided as a function
+        self._rhoFactor = rhoFactor
 
         # Calculate the number of points required for the Gauss-Legendre
         # quadrature
@@ -443,6 +446,7 @@ class DiffEqSolver:
                 self._evalPts.flatten(), self._evalRes)
             rhoVec[j] = np.sum(np.tile(self._weights, len(self._evalPts))*self._multFactor
                                * self._evalRes * self._evalPts.flatten()
+                               * self._rhoFactor(self._evalPts.flatten())
                                * rho(self._evalPts.flatten()))
 
         for j, z in phi.getCoords(1):
